@@ -582,6 +582,12 @@ def _oracle_slice(c, out):
 def oracle(c):
     out = []
     k = c.meta.get("k")
+    for line, o in zip(c.lines, c.impl):
+        if o and "!decoders-differ" in o:
+            # Ipv6Extensions::read / read_limited / IpSlice::to_header against Ipv6Extensions::from_slice
+            out.append(("sibling-decoders-differ", {"line": line[:300], "impl": o[:500]}))
+    if out:
+        return out
     try:
         if k == "main":
             _oracle_main(c, out)
